@@ -21,6 +21,9 @@ player_<var> events, game-flow events):
   var_event      every write to a player variable (tapped at Player.__setattr__) vs. the player_<var> events posted.
   mode_binding   a game mode alive during a ball was started for that ball (else its devices hold another player's
                  objects).
+                 Achievement groups (disable_random, mostly auto_select false): after every (re)start of its mode the
+                 group's selection pointer is unset or points at a member which the player who is up has selected
+                 (sig achievement_group_selection_carried_into_next_mode_start; counted under nonpersist).
   read_only      reading a (possibly non-existent) variable of any player through player[name] / getattr /
                  is_player_var / a conditional event_player entry mentioning players[k].<var> leaves every player's
                  variable set unchanged (the monitors themselves only read names that exist).
@@ -510,8 +513,12 @@ def _run(case, tap, G, VMachine, MpfCrash):
                     if a1 is ABSENT:
                         bad["achievements"] = [a0, a1]
                     else:
+                        auto = set(d["name"] for d in devs if d["kind"] == "achievement" and d.get("auto_selected"))
                         for name in a0:
-                            if a1.get(name) != a0[name]:
+                            x, y = a0[name], a1.get(name)
+                            if name in auto and isinstance(y, list):
+                                x, y = x[:1], y[:1]     # an auto_select group may highlight a member at mode start
+                            if x != y:
                                 bad["achievements." + name] = [a0[name], a1.get(name)]
                 for var in exp:
                     if var not in cur:
@@ -551,11 +558,28 @@ def _run(case, tap, G, VMachine, MpfCrash):
                             exp = [d["s0"], False]
                             got = snap.get("achievements", {}).get(d["name"], ABSENT) \
                                 if isinstance(snap.get("achievements"), dict) else ABSENT
+                            if d.get("auto_selected") and isinstance(got, list):
+                                exp, got = exp[:1], got[:1]     # an auto_select group may highlight it at mode start
                         else:
                             exp, got = d["v0"], snap.get(d["var"], ABSENT)
                         if exp != got:
                             V("initial", "C11:first_load_not_at_configured_initial_" + _var_kind(d["var"], devs),
                               player=n, device=d["name"], expected=exp, got=got, **where())
+                    if k == "agroup" and activated:
+                        # the group's selection pointer is not per player: after a (re)start of its mode it is either
+                        # unset or points at a member the player who is up has selected (derivable from that player's
+                        # own achievement states)
+                        clauses["nonpersist"] += 1
+                        sel = o.get_monitorable_state().get("selected_member")
+                        if sel is not None:
+                            sel_name = sel if isinstance(sel, str) else getattr(sel, "name", repr(sel))
+                            if sel_name.startswith("<achievement.") and sel_name.endswith(">"):
+                                sel_name = sel_name[len("<achievement."):-1]
+                            a = snap.get("achievements")
+                            st = a.get(sel_name) if isinstance(a, dict) else None
+                            if sel_name not in d["members"] or not (isinstance(st, list) and st[1]):
+                                V("nonpersist", "C11:achievement_group_selection_carried_into_next_mode_start", player=n,
+                                  device=d["name"], points_at=sel_name, that_achievement_for_this_player=st, **where())
                     if not d["persist"] and activated and k in ("counter", "accrual", "sequence", "sm", "shot"):
                         clauses["nonpersist"] += 1
                         if k in ("counter", "accrual", "sequence"):
@@ -603,7 +627,7 @@ def _run(case, tap, G, VMachine, MpfCrash):
                     if not d["persist"]:
                         continue
                     exp, got = snap.get(d["var"], ABSENT), o.state
-                elif k == "xb":
+                elif k in ("xb", "agroup"):
                     continue
                 else:
                     exp, got = snap.get(d["var"], ABSENT), o.ticks
